@@ -151,3 +151,27 @@ def cross_check_smt2(smt2_text, expect, timeout_s=60):
         if ans in ('sat', 'unsat') and ans != expect:
             raise Inconclusive('solver disagreement: %s says %s, z3 (python) says %s' % (name, ans, expect))
     return res
+
+
+def reflex_dump():
+    """MIR of the reference lexer crate (/verif/reflex), same rustc flags as the repository dump."""
+    os.makedirs(TARGET, exist_ok=True)
+    src = open(os.path.join(VERIF, 'reflex', 'src', 'lib.rs'), 'rb').read()
+    key = hashlib.sha256(src).hexdigest()[:16]
+    out = os.path.join(TARGET, 'reflex-mir-%s.txt' % key)
+    if os.path.exists(out) and os.path.getsize(out) > 10000:
+        return out
+    env = dict(os.environ, CARGO_NET_OFFLINE='true', CARGO_TARGET_DIR=os.path.join(TARGET, 'reflex'))
+    fp = os.path.join(TARGET, 'reflex', 'debug', '.fingerprint')
+    if os.path.isdir(fp):
+        import shutil
+        shutil.rmtree(fp, ignore_errors=True)
+    cmd = ['cargo', '+nightly', 'rustc', '--offline', '--lib', '--', '-Zunpretty=mir',
+           '-Zmir-enable-passes=-CheckAlignment,-CheckNull,-CheckEnums']
+    with open(out + '.tmp', 'w') as fo:
+        p = subprocess.run(cmd, cwd=os.path.join(VERIF, 'reflex'), env=env, stdout=fo, stderr=subprocess.PIPE, text=True)
+    if p.returncode != 0 or os.path.getsize(out + '.tmp') < 10000:
+        sys.stderr.write(p.stderr[-2000:])
+        raise Inconclusive('MIR dump of the reference lexer failed')
+    os.rename(out + '.tmp', out)
+    return out
